@@ -62,8 +62,9 @@ class Table(span.Visitor, typing.Iterable):
                 leaf nodes.
             """
             parents = {i for a in itertools.chain(self._absolute.values(), self._prefixed.values()) for i in a}
-            children = set(self._absolute).union(self._prefixed).difference(parents)
-            assert children, 'Not acyclic'
+            keys = set(self._absolute).union(self._prefixed)
+            children = keys.difference(parents)
+            assert children or not keys, 'Not acyclic'
             return children
 
         def insert(self, instruction: uuid.UUID, argument: uuid.UUID, index: typing.Optional[int] = None) -> None:
